@@ -112,19 +112,24 @@ func verifDir() string {
 func isKnown(prop, sig string) bool {
 	knownOnce.Do(func() {
 		knownSet = map[string]bool{}
-		b, err := os.ReadFile(filepath.Join(verifDir(), "known_findings.json"))
-		if err != nil {
-			return
-		}
-		var f struct {
-			Findings []knownEntry `json:"findings"`
-		}
-		if json.Unmarshal(b, &f) != nil {
-			return
-		}
-		for _, e := range f.Findings {
-			if e.Status == "open" {
-				knownSet[e.Property+":"+e.Key] = true
+		files := []string{filepath.Join(verifDir(), "known_findings.json")}
+		more, _ := filepath.Glob(filepath.Join(verifDir(), "known_findings.d", "*.json"))
+		files = append(files, more...)
+		for _, fn := range files {
+			b, err := os.ReadFile(fn)
+			if err != nil {
+				continue
+			}
+			var f struct {
+				Findings []knownEntry `json:"findings"`
+			}
+			if json.Unmarshal(b, &f) != nil {
+				continue
+			}
+			for _, e := range f.Findings {
+				if e.Status == "open" {
+					knownSet[e.Property+":"+e.Key] = true
+				}
 			}
 		}
 	})
